@@ -111,6 +111,16 @@ LITERALS = ["echo", "'a  b'", '"$HOME"', "$(true)", "a\\ b", "__RESOURCE_FILE__"
             "{{x}}", ">", "|", "#c", "%s", "é", "x=1", "`true`", "\\n", "--out", "2>&1"]
 
 
+def raised_in_repo(exc):
+    """True iff the innermost frame of the exception's traceback is code of the repository under test"""
+    tb = exc.__traceback__
+    last = None
+    while tb is not None:
+        last = tb.tb_frame.f_code.co_filename
+        tb = tb.tb_next
+    return bool(last) and str(last).startswith(str(loader.REPO))
+
+
 class Builder:
     """Performs the DSL calls of one program on the real API and logs the events."""
 
@@ -163,6 +173,12 @@ class Builder:
         except self.BatchException as e:
             ev["out"] = "refused"
             ev["exc"] = str(e)[:120]
+            self.aborted = True
+        except Exception as e:  # the code under test crashed (not a BatchException): an outcome no specification step has
+            if not raised_in_repo(e):
+                raise
+            ev["out"] = "crash"
+            ev["exc"] = repr(e)[:200]
             self.aborted = True
         ev["deps"] = self.deps()
         self.events.append(ev)
@@ -282,6 +298,11 @@ def run_local(prog, fails, workdir, *, seed=0, execute=True):
             return ev
         except subprocess.CalledProcessError:
             raised = True
+        except Exception as e:
+            if not raised_in_repo(e):
+                raise
+            ev.append({"a": "Crash", "exc": repr(e)[:200]})
+            return ev
         if "jobs" not in seen:
             raise RuntimeError("backend was not invoked")
         order = sorted(bd.jobs, key=lambda i: (bd.jobs[i]._job_id is None, bd.jobs[i]._job_id))
@@ -491,6 +512,11 @@ def run_service(prog, *, seed=0, group_members=("a", "b")):
         for b in client.batches:
             for spec in (b.recorded or b._job_specs):
                 ev.append({"a": "Submit", "j": 0, "rec": {"parents": [], "inputs": [], "outputs": [], "links": [], "cmds": []}})
+        return ev
+    except Exception as e:
+        if not raised_in_repo(e):
+            raise
+        ev.append({"a": "Crash", "exc": repr(e)[:200]})
         return ev
     order = sorted(bd.jobs, key=lambda i: (bd.jobs[i]._job_id is None, bd.jobs[i]._job_id))
     ev.append({"a": "Number", "order": order})
